@@ -873,6 +873,78 @@ def _bad_variant_cases():
         yield dict(kind="seq", start="bad:multi", ops=[START["multi"], ["app", "I", f"ba{k}"] + good_iv, ["ext", "1", "D", f"ba{k}"] + v_dense([0, 1], [3])])
 
 
+XOPS_PRESERVING = {"xdel", "xadd", "xmul", "ximul", "xcopy", "xsort"}
+
+
+def _xop_cases(rng: Rng, n):
+    """The inherited `UserList` operations the property does not list, on a multivariate object
+    (after a short history): modelled as they behave (`FDA.Containers.stepX`)."""
+    for _ in range(n):
+        ops = [START["multi"]] if rng.random() < 0.6 else [_randomise_bad(rng, choose_construct(rng))]
+        if ops[0][0] != "mkM":
+            ops = [START["multi"]]
+        for _ in range(rng.randint(0, 3)):
+            ops.append(rng.choice(ALPHABET["multi"][2:19]))
+        nobs = rng.choice([1, 2, 2, 3])
+        c = rng.random()
+        if c < 0.2:
+            x = ["xset", str(rng.randint(-4, 4))] + rand_recipe(rng, nobs)
+        elif c < 0.3:
+            x = ["xdel", str(rng.randint(-4, 4))]
+        elif c < 0.45:
+            k = rng.randint(0, 2)
+            x = ["xiadd", str(k)] + [t for _ in range(k) for t in rand_recipe(rng, nobs)]
+        elif c < 0.65:
+            k = rng.randint(0, 2)
+            x = ["xadd", str(k)] + [t for _ in range(k) for t in rand_recipe(rng, nobs)]
+        elif c < 0.78:
+            x = ["xmul", str(rng.randint(-1, 3))]
+        elif c < 0.88:
+            x = ["ximul", str(rng.randint(-1, 3))]
+        elif c < 0.94:
+            x = ["xcopy"]
+        else:
+            x = ["xsort"]
+        yield dict(kind="xop", start="xop", ops=ops, xop=x)
+
+
+def _xop_run(case):
+    A, V, FD = cu._fd()
+    obj, steps = run_history(case["ops"])
+    if not isinstance(obj, FD.MultivariateFunctionalData):
+        return dict(out="na", state="", bad=[])
+    tk = Tokens(case["xop"])
+    op = tk.next()
+    res = obj
+    try:
+        if op == "xset":
+            i = int(tk.next())
+            c = cu.parse_recipe(tk)()
+            obj[i] = c
+        elif op == "xdel":
+            del obj[int(tk.next())]
+        elif op == "xiadd":
+            obj += [r() for r in cu.parse_counted(tk, cu.parse_recipe)]
+            res = obj
+        elif op == "xadd":
+            res = obj + [r() for r in cu.parse_counted(tk, cu.parse_recipe)]
+        elif op == "xmul":
+            k = int(tk.next())
+            res = obj * k if k % 2 else k * obj
+        elif op == "ximul":
+            obj *= int(tk.next())
+            res = obj
+        elif op == "xcopy":
+            res = obj.copy()
+        elif op == "xsort":
+            obj.sort()
+        out = "ok"
+    except (TypeError, ValueError, IndexError, KeyError) as e:
+        out, res = err_class(e), obj
+    ok_type = isinstance(res, FD.MultivariateFunctionalData)
+    return dict(out=out, state=cu.show_state(res), bad=check_obj(res, None) if ok_type else ["not_multivariate"], before_bad=steps[-1]["bad"] if steps else [])
+
+
 def fnv(s: str) -> int:
     h = 14695981039346656037
     for b in s.encode():
@@ -939,6 +1011,7 @@ def gen_cases(rng: Rng, tier):
     n = dict(quick=260, thorough=2500)[tier]
     cases = [random_history(rng, rng.choice([5, 8, 12, 20, 40])) for _ in range(n)]
     cases += list(_bad_variant_cases())
+    cases += list(_xop_cases(rng, 120 if tier == "quick" else 1500))
     if tier == "quick":
         cases += list(_exhaustive(2))
     else:
@@ -967,11 +1040,15 @@ def run_impl(case):
     common.use_repo()
     if case["kind"] == "tree":
         return _tree_run(case)
+    if case["kind"] == "xop":
+        return _xop_run(case)
     _, steps = run_history(case["ops"])
     return dict(steps=steps)
 
 
 def model_lines(case, impl):
+    if case["kind"] == "xop":
+        return [f"xop {_guard()} " + " ".join(t for op in case["ops"] for t in op) + " | " + " ".join(case["xop"])]
     if case["kind"] == "tree":
         al = ALPHABET[case["start"]]
         pre = [START[case["start"]]] + [al[i] for i in case["prefix"]]
@@ -980,6 +1057,12 @@ def model_lines(case, impl):
 
 
 def parse_model(case, outs):
+    if case["kind"] == "xop":
+        if outs[0] in ("na", "bad"):
+            return dict(out=outs[0], state="", inv="")
+        out, rest = outs[0].split(" ", 1)
+        state, inv = rest.rsplit(" inv=", 1)
+        return dict(out=out, state=state, inv=inv)
     if case["kind"] == "tree":
         return dict(error=outs[0]) if outs[0].startswith("bad") else dict(digests=[int(x) for x in outs[0].split(" ")])
     steps = []
@@ -997,6 +1080,17 @@ def compare(case, impl, model):
         return [f"implementation crashed: {impl['__crash__']} {impl.get('msg')}"]
     if model.get("error"):
         return [f"model could not parse the history: {model['error']}"]
+    if case["kind"] == "xop":
+        if model["out"] == "bad":
+            return ["model could not parse the request"]
+        if impl["out"] == "na" or model["out"] == "na":
+            return [] if impl["out"] == model["out"] else [f"xop applicability: impl {impl['out']} vs model {model['out']}"]
+        d = " ".join(case["xop"])[:100]
+        if impl["out"] != model["out"]:
+            return [f"`{d}`: outcome impl {impl['out']} vs model {model['out']}"]
+        if impl["state"] != model["state"]:
+            return [f"`{d}`: components impl {impl['state']} vs model {model['state']}"]
+        return []
     if case["kind"] == "tree":
         if impl["digests"] == model["digests"]:
             return []
@@ -1123,6 +1217,13 @@ def oracle(case, impl):
         return [dict(clause="runs", entry="history", msg=f"crash {impl['__crash__']}: {impl.get('msg')} {impl.get('tb', '')[-300:]}")]
     if case["kind"] == "tree":
         return [dict(v) for v in impl["violations"]]
+    if case["kind"] == "xop":
+        # only the operations proved to preserve the invariant are judged; `mfd[i] = c` and `mfd += …` are
+        # unguarded by design of `UserList` and outside the property's operation list (C11.xop_*_counterexample)
+        if case["xop"][0] in XOPS_PRESERVING and impl["out"] == "ok" and not impl.get("before_bad"):
+            return [dict(clause=b, entry=case["xop"][0], causes=[], msg=f"`{' '.join(case['xop'])[:120]}` after {len(case['ops'])} steps left {impl['state']} inconsistent ({b})")
+                    for b in impl["bad"]]
+        return []
     vs = _judge(case["ops"], impl["steps"])
     for v in vs:
         v.pop("step", None)
@@ -1146,6 +1247,8 @@ def nontrivial(case, impl):
         return None
     if case["kind"] == "tree":
         return digest(case) if len(set(impl["digests"])) > 1 else None
+    if case["kind"] == "xop":
+        return digest(case) if impl.get("out") not in ("na",) else None
     outs = [s["out"] for s in impl["steps"]]
     if "ok" in outs[1:] and any(o not in ("ok", "na") for o in outs):
         return digest(case["ops"])
@@ -1156,6 +1259,8 @@ def nontrivial(case, impl):
 def classify(case, impl):
     if case["kind"] == "tree":
         return ["start:" + case["start"], "tree:576-continuations-of-length-2"]
+    if case["kind"] == "xop":
+        return ["xop:" + case["xop"][0] + ":" + str(impl.get("out"))]
     tags = ["start:" + str(case.get("start")), "len:" + ("1-4" if len(case["ops"]) <= 5 else "5-12" if len(case["ops"]) <= 12 else "13+")]
     if "__crash__" in impl:
         return tags + ["crash"]
